@@ -92,7 +92,8 @@ def check(pid: str, tier: str, seed: int):
                 lg, lcf = MG.make_lang(impl, L)
             except Exception:
                 continue
-            m = MG.gen_model(impl, rng, L, lg, lcf, n_assets=(1, 6) if i < n else (6, 9), explicit_ids=0.3, link_density=0.6 if i < n else 1.0)
+            m = MG.gen_model(impl, rng, L, lg, lcf, n_assets=(1, 6) if i < n else (6, 9), explicit_ids=0.3, link_density=0.6 if i < n else 1.0,
+                             tricky_names=0.3 if i % 3 == 0 else 0.0)
             content = PMIO.content_of(m)
             pv = []
             # ---- export of the model
@@ -149,6 +150,10 @@ def check(pid: str, tier: str, seed: int):
                                x.get('defense_status')) for x in n2)
                 if gotn != expn:
                     pv.append('the nodes sent for an attack graph are not one per attack step with its attributes')
+                explab = sorted((nd.full_name, str(nd.asset.name) if nd.asset is not None else str(nd.id)) for nd in ag.nodes)
+                gotlab = sorted((x.get('full_name'), ','.join(str(l) for l in x.labels)) for x in n2)
+                if gotlab != explab:
+                    pv.append('an attack step is not sent under the label of its asset (name of the asset, or the node id without one)')
                 expe = sorted({(nd.full_name, ch.full_name) for nd in ag.nodes for ch in nd.children})
                 gote = sorted((r.start_node.get('full_name'), r.end_node.get('full_name')) for r in r2)
                 if gote != expe:
